@@ -1,4 +1,342 @@
-//! C19: not built yet.
-use crate::util::Ctx;
+//! C19 — executable documents and field sets round-trip.
+//!
+//! Stream (Lean model: Model/ExecDoc.lean over Model/Ast.lean + Model/AstParse.lean + the lexer model):
+//!   c19.toast  schema-view source → dump of the AST that `ExecutableDocument::to_ast` hands to the printer
+//!              (observed by re-parsing the printed text with `ast::Document::parse`), for valid AND invalid documents
+//!              (dropped selections, duplicate names, misplaced anonymous operations).
+//! Oracles on the implementation (the repo's `reparse` fuzz target, made systematic):
+//!   exec-*      valid (schema, document): for every indentation setting, print → parse_and_validate → equal; print again → identical;
+//!   fieldset-*  valid field sets on every composite type: print → parse_and_validate → equal selection set; print again → identical;
+//!   mixed-*     schema + executable in one text: parse_mixed_validate → print both → parse_mixed_validate → equal schema and document.
+use crate::p20::{self, Def};
+use crate::util::*;
+use apollo_compiler::ast::OperationType;
+use apollo_compiler::executable::FieldSet;
+use apollo_compiler::parser::Parser;
+use apollo_compiler::schema::ExtendedType;
+use apollo_compiler::validation::Valid;
+use apollo_compiler::{ast, ExecutableDocument, Name, Schema};
 
-pub fn run(_ctx: &mut Ctx) {}
+/// (indent prefix, initial level); None = no_indent
+const CFGS: [(Option<&str>, usize); 18] = [
+    (Some("  "), 0), (None, 0),
+    (Some(""), 0), (Some(""), 1), (Some(""), 2), (Some(""), 3),
+    (Some(" "), 0), (Some(" "), 1), (Some(" "), 2), (Some(" "), 3),
+    (Some("\t"), 0), (Some("\t"), 1), (Some("\t"), 2), (Some("\t"), 3),
+    (Some("    "), 0), (Some("    "), 1), (Some("    "), 2), (Some("    "), 3),
+];
+
+fn ser_doc(d: &ExecutableDocument, cfg: (Option<&str>, usize)) -> String {
+    let s = d.serialize().initial_indent_level(cfg.1);
+    match cfg.0 { Some(p) => s.indent_prefix(p).to_string(), None => s.no_indent().to_string() }
+}
+fn ser_fs(d: &FieldSet, cfg: (Option<&str>, usize)) -> String {
+    let s = d.serialize().initial_indent_level(cfg.1);
+    match cfg.0 { Some(p) => s.indent_prefix(p).to_string(), None => s.no_indent().to_string() }
+}
+fn ser_schema(d: &Schema, cfg: (Option<&str>, usize)) -> String {
+    let s = d.serialize().initial_indent_level(cfg.1);
+    match cfg.0 { Some(p) => s.indent_prefix(p).to_string(), None => s.no_indent().to_string() }
+}
+fn one_line(s: &str) -> String { s.replace('\n', "\\n").replace('\t', "\\t").replace('\r', "\\r") }
+
+const SCHEMA_R: &str = r#"
+directive @v(f: Float, s: String, i: ID, e: E, l: [[Int]], o: In, b: Boolean) repeatable on FIELD | QUERY | MUTATION | SUBSCRIPTION | FRAGMENT_DEFINITION | FRAGMENT_SPREAD | INLINE_FRAGMENT | VARIABLE_DEFINITION
+type Query { v(f: Float, s: String, i: ID, e: E, l: [[Int]], o: In, b: Boolean): Int a: Int o: A i: I u: U }
+type Mutation { m(o: In): A }
+type Subscription { s: A }
+type A implements I { a: Int v(f: Float, s: String, i: ID, e: E, l: [[Int]], o: In, b: Boolean): Int o: A i: I u: U }
+type B implements I { a: Int bb: Boolean }
+interface I { a: Int }
+union U = A | B
+enum E { X Y }
+input In { x: Int y: String z: In l: [Float] }
+"#;
+
+// ---------------------------------------------------------------- schema view for the model
+
+fn kind_code(t: &ExtendedType) -> &'static str {
+    match t {
+        ExtendedType::Object(_) => "o", ExtendedType::Interface(_) => "i", ExtendedType::Union(_) => "u",
+        ExtendedType::Scalar(_) => "s", ExtendedType::Enum(_) => "e", ExtendedType::InputObject(_) => "n",
+    }
+}
+fn e_schema(s: &Schema) -> String {
+    let mut o: Vec<String> = vec!["R".into()];
+    for t in [OperationType::Query, OperationType::Mutation, OperationType::Subscription] {
+        o.push(match s.root_operation(t) { Some(n) => n.to_string(), None => "-".into() });
+    }
+    let mut next = 3usize;
+    for (n, t) in &s.types {
+        o.push("T".into()); o.push(n.to_string()); o.push(kind_code(t).into());
+        let fields: Vec<(String, String)> = match t {
+            ExtendedType::Object(x) => x.fields.iter().map(|(k, f)| (k.to_string(), f.ty.inner_named_type().to_string())).collect(),
+            ExtendedType::Interface(x) => x.fields.iter().map(|(k, f)| (k.to_string(), f.ty.inner_named_type().to_string())).collect(),
+            _ => vec![],
+        };
+        o.push(fields.len().to_string());
+        for (k, ty) in fields { o.push(k); o.push(next.to_string()); o.push(ty); next += 1; }
+    }
+    o.join(" ")
+}
+
+// ---------------------------------------------------------------- executable documents
+
+struct View { name: String, schema: Valid<Schema>, enc: String }
+
+fn exec_case(ctx: &mut Ctx, v: &View, text: &str, family: &str) {
+    let input = format!("[schema {}] {}", v.name, one_line(text));
+    let Ok(ast_doc) = ast::Document::parse(text.to_string(), "d.graphql") else { ctx.stat("generator_syntax_error"); return };
+    let built = catch(|| match ast_doc.to_executable(&v.schema) { Ok(d) => (d, true), Err(e) => (e.partial, false) });
+    let (doc, build_ok) = match built { Ok(x) => x, Err(p) => { ctx.fail("to-executable-panic", &input, &p); return; } };
+    // correspondence: what to_ast gives the printer, read back from the default print
+    let printed = ser_doc(&doc, CFGS[0]);
+    match ast::Document::parse(printed.clone(), "p.graphql") {
+        Ok(back) => {
+            ctx.stat("toast_cases");
+            ctx.case("c19.toast", &[format!("={}", v.enc), enc(text)], &crate::p08::dump(&back));
+        }
+        Err(_) => ctx.stat("toast_skipped_unparseable_print"),
+    }
+    // oracle: only valid documents
+    let valid = build_ok && catch(|| doc.clone().validate(&v.schema).is_ok()).unwrap_or(false);
+    if !valid { ctx.stat(&format!("{family}_invalid")); return; }
+    ctx.stat(&format!("{family}_valid"));
+    ctx.nontrivial(&input);
+    for cfg in CFGS {
+        let t1 = ser_doc(&doc, cfg);
+        let cfgs = format!("{:?}", cfg);
+        match catch(|| ExecutableDocument::parse_and_validate(&v.schema, t1.clone(), "r.graphql")) {
+            Err(p) => ctx.fail("exec-reparse-panic", &input, &format!("config {cfgs}: {p}")),
+            Ok(Err(e)) => ctx.fail("exec-reparse-fails", &input, &format!("config {cfgs}: printed `{}` does not validate: {}", one_line(&t1), one_line(&e.errors.to_string()).chars().take(300).collect::<String>())),
+            Ok(Ok(doc2)) => {
+                if *doc2 != doc {
+                    ctx.fail("exec-reparse-differs", &input, &format!("config {cfgs}: printed `{}` re-parses to a different document", one_line(&t1)));
+                }
+                let t2 = ser_doc(&doc2, cfg);
+                if t2 != t1 { ctx.fail("exec-reserialize-differs", &input, &format!("config {cfgs}: `{}` vs `{}`", one_line(&t1), one_line(&t2))); }
+            }
+        }
+        ctx.stat("exec_roundtrips");
+    }
+}
+
+// ---------------------------------------------------------------- rich values (schema R)
+
+fn pick<'a>(r: &mut Rng, xs: &[&'a str]) -> &'a str { xs[r.below(xs.len())] }
+
+fn rich_args(r: &mut Rng, konst: bool) -> String {
+    let mut parts: Vec<String> = vec![];
+    let v = |r: &mut Rng, lits: &[&str], var: &str| -> String { if !konst && r.chance(1, 4) { var.to_string() } else { pick(r, lits).to_string() } };
+    if r.chance(1, 3) { parts.push(format!("f: {}", v(r, &["1.5", "-0.0", "1e10", "1.25E-3", "3", "-7", "null", "0.1e+2"], "$f"))); }
+    if r.chance(1, 3) { parts.push(format!("s: {}", v(r, &["\"\"", "\"a b\"", "\"q\\\"\\\\ \\n \\u00e9 \\t\"", "\"\"\"block\n  two \\\"\"\" lines\n\"\"\"", "\"é☃😀\"", "null", "\"\"\"\"\"\"", "\"#not a comment, {x: 1}\"", "\"\"\" lead\n   indent\n  less\"\"\""], "$s"))); }
+    if r.chance(1, 4) { parts.push(format!("i: {}", v(r, &["\"id\"", "7", "null"], "$i"))); }
+    if r.chance(1, 3) { parts.push(format!("e: {}", v(r, &["X", "Y", "null"], "$e"))); }
+    if r.chance(1, 3) { parts.push(format!("l: {}", v(r, &["[]", "[[1, 2], []]", "[[1], null]", "[[-1,2 3]]", "null", "[[]]"], "[[$n], [1, $n]]"))); }
+    if r.chance(1, 3) { parts.push(format!("o: {}", v(r, &["{}", "{x: 1}", "{y: \"s\", z: {l: [1.5, 2]}}", "{z: {z: {z: {}}}}", "null", "{x: null, l: []}"], "{x: $n, z: {y: $s}}"))); }
+    if r.chance(1, 4) { parts.push(format!("b: {}", v(r, &["true", "false", "null"], "$b"))); }
+    if parts.is_empty() { String::new() } else { format!("({})", parts.join(if r.chance(1, 3) { " " } else { ", " })) }
+}
+fn rich_dirs(r: &mut Rng, konst: bool) -> String {
+    let mut o = String::new();
+    if r.chance(1, 3) { for _ in 0..1 + r.below(2) { o.push_str(" @v"); o.push_str(&rich_args(r, konst)); } }
+    if !konst && r.chance(1, 8) { o.push_str(" @skip(if: $b)"); }
+    o
+}
+fn rich_sels(r: &mut Rng, ty: &str, depth: usize, frags: usize, counter: &mut usize) -> String {
+    let mut o = String::from("{");
+    let n = 1 + r.below(3);
+    for _ in 0..n {
+        o.push(' ');
+        let k = r.below(10);
+        // aliases: fresh ones, and the field's own name (`a: a`) on leaf fields without arguments
+        let alias = if r.chance(1, 2) { *counter += 1; format!("k{}: ", counter) } else { *counter += 1; format!("z{}: ", counter) };
+        let own = r.chance(1, 6);
+        match (ty, k) {
+            ("Query" | "A", 0..=3) => { o.push_str(&alias); o.push('v'); o.push_str(&rich_args(r, false)); o.push_str(&rich_dirs(r, false)); }
+            ("Query" | "A", 4 | 5) if depth < 3 => { o.push_str(&alias); o.push_str("o"); o.push_str(&rich_dirs(r, false)); o.push(' '); o.push_str(&rich_sels(r, "A", depth + 1, frags, counter)); }
+            ("Query" | "A", 6) if depth < 3 => { o.push_str(&alias); o.push_str("u "); o.push_str(&rich_sels(r, "U", depth + 1, frags, counter)); }
+            (_, 7) if depth < 3 => { o.push_str("..."); o.push_str(&rich_dirs(r, false)); o.push(' '); o.push_str(&rich_sels(r, ty, depth + 1, frags, counter)); }
+            ("U" | "I" | "A", 8) if depth < 3 => { o.push_str("... on A"); o.push_str(&rich_dirs(r, false)); o.push(' '); o.push_str(&rich_sels(r, "A", depth + 1, frags, counter)); }
+            ("A" | "U" | "I", 9) if frags > 0 => { o.push_str(&format!("...F{}", r.below(frags))); o.push_str(&rich_dirs(r, false)); }
+            ("U", _) => o.push_str("__typename"),
+            _ => { o.push_str(if own { "a: " } else { &alias }); o.push('a'); o.push_str(&rich_dirs(r, false)); }
+        }
+    }
+    o.push_str(" }");
+    o
+}
+fn rich_doc(r: &mut Rng) -> String {
+    let mut counter = 0usize;
+    let frags = r.below(3);
+    let kind = r.below(8);
+    let (kw, root, body) = match kind {
+        0 => ("mutation", "Mutation", format!("{{ m(o: {}) {} }}", pick(r, &["{x: 1}", "$o", "null"]), rich_sels(r, "A", 1, frags, &mut counter))),
+        1 => ("subscription", "Subscription", format!("{{ s {} }}", rich_sels(r, "A", 1, frags, &mut counter))),
+        _ => ("query", "Query", rich_sels(r, "Query", 0, frags, &mut counter)),
+    };
+    let _ = root;
+    let op_dirs = if kind == 1 { String::new() } else { rich_dirs(r, false).replace(" @skip(if: $b)", "") };
+    let mut frag_text = String::new();
+    for j in 0..frags {
+        // fragment j may spread higher-numbered ones only (no cycles)
+        let inner = rich_sels(r, "A", 2, 0, &mut counter);
+        let spread = if j + 1 < frags && r.chance(1, 2) { format!(" ...F{}", j + 1) } else { String::new() };
+        let inner = format!("{}{} }}", &inner[..inner.len() - 2], spread);
+        frag_text.push_str(&format!("\nfragment F{j} on A{} {}", rich_dirs(r, false).replace(" @skip(if: $b)", ""), inner));
+    }
+    let all = format!("{op_dirs} {body} {frag_text}");
+    // every fragment must be used: spread the unused ones from the operation when it can (query root → o { … })
+    let mut extra = String::new();
+    for j in 0..frags { if !body.contains(&format!("...F{j}")) && !frag_text.contains(&format!(" ...F{j} ")) && !frag_text.contains(&format!(" ...F{j}}}")) { extra.push_str(&format!(" ...F{j}")); } }
+    let body = if extra.is_empty() { body } else {
+        match kind { 0 => format!("{} q9: m {{{extra} }} }}", &body[..body.len() - 1]), 1 => format!("{{ s {{ a{extra} }} }}"), _ => format!("{} q9: o {{{extra} }} }}", &body[..body.len() - 1]) }
+    };
+    let all = format!("{all} {body}");
+    let mut vars: Vec<String> = vec![];
+    for (name, decl) in [("$f", "$f: Float = 1.5"), ("$s", "$s: String = \"d\\\"x\""), ("$i", "$i: ID"), ("$e", "$e: E = Y"), ("$n", "$n: Int = -3"), ("$o", "$o: In = {x: 2, z: {l: [1]}}"), ("$b", "$b: Boolean! = true")] {
+        if all.contains(name) {
+            let mut d = decl.to_string();
+            if r.chance(1, 3) { if let Some(i) = d.find(" =") { d.truncate(i); } }
+            if r.chance(1, 4) { d.push_str(&rich_dirs(r, true)); }
+            vars.push(d);
+        }
+    }
+    let named = !vars.is_empty() || !op_dirs.is_empty() || kw != "query" || r.chance(1, 2);
+    let head = if named {
+        let name = if r.chance(2, 3) { " Q" } else { "" };
+        let vs = if vars.is_empty() { String::new() } else { format!("({})", vars.join(", ")) };
+        format!("{kw}{name}{vs}{op_dirs} ")
+    } else { String::new() };
+    format!("{head}{body}{frag_text}")
+}
+
+// ---------------------------------------------------------------- field sets
+
+fn fieldset_text(r: &mut Rng, ty: &str, depth: usize, counter: &mut usize) -> String {
+    let s = rich_sels(r, ty, depth, 0, counter);
+    // strip the outer braces half of the time (both forms are accepted)
+    s
+}
+
+fn fieldset_case(ctx: &mut Ctx, v: &View, ty: &str, text: &str) {
+    let input = format!("[schema {} type {ty}] {}", v.name, one_line(text));
+    let Ok(tyname) = Name::new(ty) else { return };
+    let fs = match catch(|| FieldSet::parse_and_validate(&v.schema, tyname.clone(), text.to_string(), "f.graphql")) {
+        Err(p) => { ctx.fail("fieldset-panic", &input, &p); return; }
+        Ok(Err(_)) => { ctx.stat("fieldset_invalid"); return; }
+        Ok(Ok(fs)) => fs,
+    };
+    ctx.stat("fieldset_valid");
+    ctx.nontrivial(&input);
+    for cfg in CFGS {
+        let t1 = ser_fs(&fs, cfg);
+        let cfgs = format!("{:?}", cfg);
+        if t1.trim_start().starts_with('{') { ctx.stat("fieldset_printed_with_braces"); }
+        match catch(|| FieldSet::parse_and_validate(&v.schema, tyname.clone(), t1.clone(), "r.graphql")) {
+            Err(p) => ctx.fail("fieldset-reparse-panic", &input, &format!("config {cfgs}: {p}")),
+            Ok(Err(e)) => ctx.fail("fieldset-reparse-fails", &input, &format!("config {cfgs}: printed `{}`: {}", one_line(&t1), one_line(&e.errors.to_string()).chars().take(300).collect::<String>())),
+            Ok(Ok(fs2)) => {
+                if fs2.selection_set != fs.selection_set { ctx.fail("fieldset-reparse-differs", &input, &format!("config {cfgs}: printed `{}` re-parses to a different field set", one_line(&t1))); }
+                let t2 = ser_fs(&fs2, cfg);
+                if t2 != t1 { ctx.fail("fieldset-reserialize-differs", &input, &format!("config {cfgs}: `{}` vs `{}`", one_line(&t1), one_line(&t2))); }
+            }
+        }
+        ctx.stat("fieldset_roundtrips");
+    }
+}
+
+// ---------------------------------------------------------------- mixed documents
+
+fn mixed_case(ctx: &mut Ctx, schema_src: &str, exec_src: &str, order: usize) {
+    let text = match order { 0 => format!("{schema_src}\n{exec_src}"), _ => format!("{exec_src}\n{schema_src}") };
+    let input = one_line(&text);
+    let (schema, doc) = match catch(|| Parser::new().parse_mixed_validate(text.clone(), "m.graphql")) {
+        Err(p) => { ctx.fail("mixed-panic", &input, &p); return; }
+        Ok(Err(_)) => { ctx.stat("mixed_invalid"); return; }
+        Ok(Ok(x)) => x,
+    };
+    ctx.stat("mixed_valid");
+    for cfg in [CFGS[0], CFGS[1], CFGS[11], CFGS[16]] {
+        let cfgs = format!("{:?}", cfg);
+        let t = format!("{}\n{}", ser_schema(&schema, cfg), ser_doc(&doc, cfg));
+        match catch(|| Parser::new().parse_mixed_validate(t.clone(), "r.graphql")) {
+            Err(p) => ctx.fail("mixed-reparse-panic", &input, &format!("config {cfgs}: {p}")),
+            Ok(Err(e)) => ctx.fail("mixed-reparse-fails", &input, &format!("config {cfgs}: {}", one_line(&e.to_string()).chars().take(300).collect::<String>())),
+            Ok(Ok((schema2, doc2))) => {
+                if *schema2 != *schema { ctx.fail("mixed-schema-differs", &input, &format!("config {cfgs}: the printed schema re-parses to a different schema")); }
+                if *doc2 != *doc { ctx.fail("mixed-document-differs", &input, &format!("config {cfgs}: the printed document re-parses to a different document")); }
+            }
+        }
+        ctx.stat("mixed_roundtrips");
+    }
+}
+
+// ---------------------------------------------------------------- run
+
+fn with_defaults(r: &mut Rng, defs: &mut [Def]) {
+    for d in defs.iter_mut() {
+        if let Def::Op(o) = d {
+            for v in o.vars.iter_mut() {
+                if !r.chance(1, 3) { continue; }
+                let dv = match v.ty.as_str() { "Int" => " = 7", "Boolean!" => " = false", "E" => " = X", "In" => " = {x: 1}", _ => "" };
+                v.ty.push_str(dv);
+            }
+        }
+    }
+}
+
+pub fn run(ctx: &mut Ctx) {
+    let mut views = vec![];
+    for (n, src) in [("A", p20::SCHEMA_A), ("B", p20::SCHEMA_B), ("C", p20::SCHEMA_C), ("R", SCHEMA_R)] {
+        match Schema::parse_and_validate(src, "s.graphql") {
+            Ok(s) => { let enc = e_schema(&s); views.push(View { name: n.into(), schema: s, enc }); }
+            Err(e) => { ctx.fail("generator-schema-invalid", n, &one_line(&e.errors.to_string())); return; }
+        }
+    }
+    // fixed: the printer's special forms
+    let fixed_a = [
+        "{ a }", "query { a }", "query Q { a }", "{ a: a o: o { a: a b: a } }", "{ a } fragment F on A { a }", "query Q { o { ...F } } fragment F on A { a ... { b } ... on A { a } }",
+        "fragment F on A { a } { o { ...F } }", "query N { a } { b }", "{ o { ... { ... { a } } } }", "{ u { __typename ... on B { bb } } }",
+        "query Q($b0: Boolean! = true, $i0: Int = 7 @c) @c { x: b(x: $i0, f: $b0) @skip(if: $b0) y: b(en: X, inp: {x: 1}) }",
+        "mutation { m(x: null) { a } }", "subscription S { s { a } }", "{ __schema { types { name } } __type(name: \"A\") { name } __typename }",
+        "{ nope o { nope a } a { a } ... on Nope { a } ...Nope }", "{ a } { b } query N { a } query N { b } fragment F on A { a } fragment F on B { bb }",
+    ];
+    for t in fixed_a { for v in &views[..3] { exec_case(ctx, v, t, "fixed"); } }
+    let n_gen = if ctx.thorough { 20_000 } else { 2_500 };
+    for i in 0..n_gen {
+        let clean = i % 4 != 3;
+        let mut d = p20::gen_doc(&mut ctx.rng, clean);
+        with_defaults(&mut ctx.rng, &mut d);
+        let text = p20::doc_text(&d);
+        exec_case(ctx, &views[0], &text, if clean { "gen" } else { "gendirty" });
+        let vi = 1 + i % 2;
+        exec_case(ctx, &views[vi], &text, if clean { "gen" } else { "gendirty" });
+    }
+    let n_rich = if ctx.thorough { 20_000 } else { 2_500 };
+    for _ in 0..n_rich {
+        let t = rich_doc(&mut ctx.rng);
+        exec_case(ctx, &views[3], &t, "rich");
+    }
+    // field sets on every composite type of schema R and A
+    let n_fs = if ctx.thorough { 16_000 } else { 2_000 };
+    for i in 0..n_fs {
+        let ty = ["Query", "A", "U", "I", "B"][i % 5];
+        let mut counter = 0;
+        let t = fieldset_text(&mut ctx.rng, ty, 1, &mut counter);
+        let t = t.replace("$f", "1.5").replace("$s", "\"v\"").replace("$i", "\"i\"").replace("$e", "X").replace("$n", "4").replace("$o", "{x: 3}").replace("$b", "true");
+        let text = if ctx.rng.chance(1, 2) { t[1..t.len() - 1].trim().to_string() } else { t };
+        fieldset_case(ctx, &views[3], ty, &text);
+    }
+    for (ty, t) in [("Query", "a"), ("Query", "{ a }"), ("A", "a o { a }"), ("A", "x: a y: v(f: 1.5, s: \"\"\"b\"\"\") ... on A { a }"), ("U", "... on A { a } __typename"), ("I", "a ... { a }")] {
+        fieldset_case(ctx, &views[3], ty, t);
+    }
+    // mixed
+    let n_mixed = if ctx.thorough { 3_000 } else { 300 };
+    for i in 0..n_mixed {
+        let t = rich_doc(&mut ctx.rng);
+        mixed_case(ctx, SCHEMA_R, &t, i % 2);
+        let d = p20::gen_doc(&mut ctx.rng, true);
+        mixed_case(ctx, p20::SCHEMA_A, &p20::doc_text(&d), i % 2);
+    }
+}
